@@ -33,6 +33,12 @@ def obligations(tier):
                           group=f'N=3, {nl - 1} edge kinds',
                           bound=f'3 keys; labels of pairs (0,0),(0,1) fixed to {x},{y}; the other 7 pairs any of '
                                 + ('{none, hard, soft}' if quick else '{none, hard, soft, merge}')))
+    for x in range(4):
+        obs.append(Ob(id=f'graph3lc.l01_{x}', module=M, func='graph3lc', params='l02: int, l10: int, l12: int, l20: int, l21: int, fill_after: bool',
+                      args=f'{x}, l02, l10, l12, l20, l21, fill_after',
+                      pre=['0 <= l02 <= 3 and 0 <= l10 <= 3 and 0 <= l12 <= 3 and 0 <= l20 <= 3 and 0 <= l21 <= 3'], timeout=T,
+                      group='N=3 with loop_control', bound=f'3 keys, no self-loops; pair (0,1) label {x}; the other 5 pairs any of '
+                      '{none, hard, soft, loop_control}'))
     obs.append(Ob(id='normalize2', module=M, func='normalize2', params='a: int, b: int, c: int, d: int',
                   pre=['0 <= a <= 3 and 0 <= b <= 3 and 0 <= c <= 3 and 0 <= d <= 3'], timeout=T, group='normalize',
                   bound='2 keys, pairs labelled {none, hard, soft, merge}'))
@@ -57,7 +63,7 @@ def run(tier, only=''):
                      'so per-path symbolic execution amounts to an exhaustive case split with solver pruning (the merged '
                      'bit-vector encoding planned in DESIGN.md for N = 4..5 was not built; see DESIGN.md section 4, C20).'),
         bounds={'N=2': 'all labellings of the 4 pairs + one reference to a missing key over 5 edge kinds',
-                'N=3': 'all labellings of the 9 pairs over {none, hard, soft}' + ('' if tier == 'quick' else ' + merge')},
+                'N=3': 'all labellings of the 9 pairs over {none, hard, soft}' + ('' if tier == 'quick' else ' + merge') + '; all labellings of the 6 off-diagonal pairs over {none, hard, soft, loop_control}'},
         stubs=[], trusted_base=['reachability oracle (Floyd-Warshall, 8 lines) in the harness', 'CrossHair, z3'],
         assumptions=['keys are iterated in ascending order (dict / OrderedSet insertion order); other insertion orders are outside'],
         outside=['N >= 4', 'loop_control edges at N = 3', 'other iteration orders', 'hash order of plain sets supplied by a caller'],
